@@ -28,7 +28,16 @@ RULE = ("(a) generate_motifs(3) and generate_motifs(4) compared IN FULL with the
         "inside hyperedges shuffled too); the census of one long-lived Hypergraph object that is edited in place "
         "(remove_edge / add_edge) from instance to instance; (c) sessions of DirectedHypergraph instances (4-7 nodes, "
         "disjoint non-empty sides, size 2-6) with compute_directed_motifs likewise (canonical keys, relabelling, "
-        "removal/addition of larger hyperedges, enumeration, visited sets of both passes, in-place edited object). "
+        "removal/addition of larger hyperedges, enumeration, visited sets of both passes, in-place edited object); "
+        "(d) un-instrumented processes (5 quick / 72 thorough): a NEW Python process in which nothing of "
+        "hypergraphx.motifs is imported, called or replaced before the first census makes 6-16 plain calls of "
+        "compute_motifs / compute_directed_motifs (orders 3 and 4, censuses of one order in a row on 2-4 different "
+        "hypergraphs or hypergraph by hypergraph, undirected before / after / interleaved with directed, the first "
+        "hypergraph of the first two scripts and of 85% of the others holds hyperedges of size 3 and 4 (the first two "
+        "scripts: both orders, one order in a row, 3 first / 4 first; in these and in half of the others the nodes of "
+        "that hyperedge are also joined by a path of pairs), the first census is repeated at the end, "
+        "objects kept, rebuilt or edited in place, one null-model round somewhere or in the very first call); every "
+        "'observed' list is judged outside that process by exhaustive enumeration and by the model. "
         "A case is distinct by (kind, order, canonical hyperedge list); non-trivial when at least 3 classes have a "
         "non-zero count")
 ASSUMPTIONS = ["integer node labels; hyperedge sizes 1..6 (the property's quantifier); labels reach the model as ranks",
@@ -37,6 +46,11 @@ ASSUMPTIONS = ["integer node labels; hyperedge sizes 1..6 (the property's quanti
                "duration of ONE step (the function itself is compared in full with the model once per run and a few "
                "steps per run are made without the memo; every order-3 step is made without it); the memo returns a "
                "fresh copy of the counting dict on every call",
+               "in the harness process the harness is the first caller of generate_motifs(3), generate_motifs(4) and "
+               "_is_connected (table check before any census), it calls the three passes directly and makes extra "
+               "censuses between two steps; the twin without any of this is stream (d): new Python processes that "
+               "only import, build and call compute_motifs / compute_directed_motifs (a per-call alarm and the "
+               "result file are the only additions), judged from outside",
                "a finding's replay re-runs the steps listed in its `history` (by default the earlier steps of its "
                "session; the harness tries shorter / longer prefixes in a fresh process and keeps the first that "
                "reproduces the finding)"]
@@ -506,7 +520,14 @@ def observed(h, n, secs=8, runs=0):
     if st != "ok":
         return st, res
     try:
-        out = res["observed"]
+        return read_census(n, res["observed"])
+    except Exception as e:  # noqa: BLE001
+        return "exc", f"unreadable result: {e!r}"
+
+
+def read_census(n, out):
+    """the 'observed' list of compute_motifs -> ('ok', {mask: count}) or ('exc', why)"""
+    try:
         d = {}
         for k, c in out:
             m = mask_of(n, k)
@@ -822,8 +843,16 @@ def dobserved(h, n, secs=8, runs=0):
     if st != "ok":
         return st, res
     try:
+        return read_dcensus(n, res["observed"])
+    except Exception as e:  # noqa: BLE001
+        return "exc", f"unreadable result: {e!r}"
+
+
+def read_dcensus(n, out):
+    """the 'observed' list of compute_directed_motifs -> ('ok', {pattern: count}) or ('exc', why)"""
+    try:
         d = {}
-        for k, c in res["observed"]:
+        for k, c in out:
             k = tuple((tuple(e[0]), tuple(e[1])) for e in k)
             if k in d:
                 return "exc", f"pattern {k!r} reported twice"
@@ -986,6 +1015,443 @@ def check_dhg(ctx, drv, sess, case):
 
 
 # ------------------------------------------------------------------------------------------
+# (d) un-instrumented processes
+#
+# Everything above runs in the harness process, where the harness itself calls generate_motifs / _is_connected (table
+# check, before any census), replaces generate_motifs by a memo around most order-4 steps, calls the passes directly and
+# makes extra calls (relabelled twin, insertion orders) between two steps.  Whatever the implementation keeps from
+# "the first call in this process" is then owned by the harness, not by a census.  The twin stream: a NEW Python
+# process that does what a user's script does - import, build, compute_motifs / compute_directed_motifs, several times
+# on different hypergraphs - and nothing else; nothing of hypergraphx.motifs is imported, called or patched before the
+# first census.  The raw 'observed' lists are written to a file and judged here (enumeration, model).
+
+PRISTINE_SRC = r"""
+import json, signal, sys
+repo, steps_path, out_path, secs = sys.argv[1], sys.argv[2], sys.argv[3], int(sys.argv[4])
+sys.path.insert(0, repo)
+steps = json.load(open(steps_path))
+out = open(out_path, "w")
+
+
+def say(rec):
+    out.write(json.dumps(rec) + "\n")
+    out.flush()
+
+
+def plain(o):
+    try:
+        return o.item()
+    except Exception:
+        return repr(o)
+
+
+def on_alarm(signum, frame):
+    raise TimeoutError("no answer after %d s" % secs)
+
+
+import hypergraphx
+from hypergraphx import DirectedHypergraph, Hypergraph
+
+say({"file": hypergraphx.__file__})
+signal.signal(signal.SIGALRM, on_alarm)
+held = {}          # (kind, hid) -> [object, {canonical hyperedge: 1}]
+slow = 0
+for i, st in enumerate(steps):
+    rec = {"i": i}
+    signal.alarm(secs)
+    try:
+        directed = st["kind"] == "directed"
+        if directed:
+            edges = [(tuple(e[0]), tuple(e[1])) for e in st["edges"]]
+            key = lambda e: (tuple(sorted(e[0])), tuple(sorted(e[1])))
+        else:
+            edges = [tuple(e) for e in st["edges"]]
+            key = lambda e: tuple(sorted(e))
+        h = None
+        src = st.get("edit_of")
+        if src is not None and (st["kind"], src) in held:
+            # the user's object of an earlier step, edited in place to the new content
+            h, have = held.pop((st["kind"], src))
+            try:
+                want = {key(e): e for e in edges}
+                for k in sorted(set(have) - set(want)):
+                    h.remove_edge(k)
+                    del have[k]
+                for k, e in want.items():
+                    if k not in have:
+                        h.add_edge(e)
+                        have[k] = 1
+                rec["edited"] = True
+            except Exception as e:
+                h = None
+                rec["edit_failed"] = repr(e)[:200]
+        elif (st["kind"], st["hid"]) in held and not st.get("fresh"):
+            h, have = held[(st["kind"], st["hid"])]
+            rec["reused"] = True
+        if h is None:
+            if st.get("ctor"):
+                h = (DirectedHypergraph if directed else Hypergraph)(list(edges))
+            else:
+                h = DirectedHypergraph() if directed else Hypergraph()
+                for e in edges:
+                    h.add_edge(e)
+            have = {key(e): 1 for e in edges}
+        held[(st["kind"], st["hid"])] = [h, have]
+        if directed:
+            from hypergraphx.motifs.directed_motifs import compute_directed_motifs as census
+        elif st.get("style") == "pkg":
+            from hypergraphx.motifs import compute_motifs as census
+        else:
+            from hypergraphx.motifs.motifs import compute_motifs as census
+        if st.get("positional"):
+            res = census(h, st["n"], st.get("runs", 0))
+        else:
+            res = census(h, order=st["n"], runs_config_model=st.get("runs", 0))
+        rec["observed"] = json.loads(json.dumps(res["observed"], default=plain))
+    except BaseException as e:
+        rec["exc"] = type(e).__name__ + ": " + str(e)[:200]
+        slow += isinstance(e, TimeoutError)
+    finally:
+        signal.alarm(0)
+    say(rec)
+    if slow >= 2:
+        break
+say({"done": True})
+"""
+
+PRISTINE_CALL_S = 25        # one census inside the child (an order-4 census of these sizes takes about 0.5 s)
+PRISTINE_HARD_S = 120       # the whole child
+
+
+def dedup(edges, key):
+    seen, out = set(), []
+    for e in edges:
+        if key(e) not in seen:
+            seen.add(key(e))
+            out.append(e)
+    return out
+
+
+def ukey(e):
+    return tuple(sorted(e))
+
+
+def gen_pristine(rng, p):
+    """the script of one un-instrumented process: 2-4 undirected and 2-3 directed hypergraphs (related or unrelated),
+    each analysed for one or both orders, censuses of one order in a row or hypergraph by hypergraph; the first
+    hypergraph usually holds hyperedges of size 3 and 4; the first hypergraph is analysed again at the end"""
+    base = window(1000 + p)
+    steps = []
+
+    def pool_of(gen, mutate, key, n_graphs, full):
+        labels, edges = gen(rng, base)
+        if full:
+            # full-size hyperedges in the first hypergraph of the process (sizes 3 and 4)
+            for size in (3, 4):
+                extra = rng.sample(labels, size)
+                if key is ukey:
+                    e = tuple(extra)
+                else:
+                    k = rng.randint(1, size - 1)
+                    e = (tuple(extra[:k]), tuple(extra[k:]))
+                edges.insert(rng.randint(0, len(edges)), e)
+                if p < 2 or rng.random() < 0.5:
+                    # ... whose nodes are also joined by pairs alone (a path; sometimes closed, sometimes with a chord)
+                    v = list(extra)
+                    rng.shuffle(v)
+                    pairs = [(v[j], v[j + 1]) for j in range(size - 1)]
+                    if rng.random() < 0.4:
+                        pairs.append((v[-1], v[0]))
+                    if size == 4 and rng.random() < 0.3:
+                        pairs.append((v[0], v[2]))
+                    for a, b in pairs:
+                        edges.insert(rng.randint(0, len(edges)), (a, b) if key is ukey else ((a,), (b,)))
+        pool = [(labels, dedup(edges, key), None)]
+        for _ in range(n_graphs - 1):
+            r = rng.random()
+            if r < 0.55:
+                lab, prev, _ = pool[-1]
+                _, e2 = mutate(rng, lab, prev)
+                pool.append((lab, dedup(e2, key), len(pool) - 1 if rng.random() < 0.5 else None))
+            else:
+                lab, e2 = gen(rng, base if r < 0.8 else base + 20)
+                pool.append((lab, dedup(e2, key), None))
+        return pool
+
+    def census_steps(kind, pool):
+        orders = rng.choice([[3, 4], [4, 3], [3, 4], [4, 3], [3], [4]])
+        by_order = rng.random() < 0.6
+        if p < 2:                   # in every run: both orders, censuses of one order in a row, either order first
+            orders, by_order = [[3, 4], [4, 3]][p], True
+        seq = [(g, n) for n in orders for g in range(len(pool))] if by_order else \
+              [(g, n) for g in range(len(pool)) for n in orders]
+        seq.append(seq[0])          # the first census once more at the end
+        out = []
+        seen = set()
+        for g, n in seq:
+            lab, edges, parent = pool[g]
+            st = {"kind": kind, "n": n, "edges": edges, "labels": lab, "hid": g}
+            if g not in seen and parent is not None and parent in seen and not by_order:
+                st["edit_of"] = parent          # the object of the previous hypergraph, edited in place
+            elif rng.random() < 0.3:
+                st["fresh"] = True
+            if rng.random() < 0.3:
+                st["ctor"] = True
+            if kind == "undirected" and rng.random() < 0.4:
+                st["style"] = "pkg"
+            if rng.random() < 0.3:
+                st["positional"] = True
+            seen.add(g)
+            out.append(st)
+        if len(out) > 2 and rng.random() < 0.5:
+            out[rng.randint(1, len(out) - 1)]["runs"] = 1
+        return out
+
+    u = census_steps("undirected", pool_of(gen_hg, mutate_hg, ukey, rng.randint(2, 4), rng.random() < 0.85 or p < 2))
+    d = census_steps("directed", pool_of(gen_dhg, mutate_dhg, dkey, rng.randint(2, 3), rng.random() < 0.85 or p < 2))
+    lay = p % 3
+    if lay == 0:
+        steps = u + d
+    elif lay == 1:
+        steps = d + u
+    else:                                # interleaved, order inside each kind kept
+        while u or d:
+            src = u if (u and (not d or rng.random() < 0.5)) else d
+            steps.append(src.pop(0))
+    if p % 4 == 3 and steps[0].get("runs", 0) == 0:
+        steps[0]["runs"] = 1             # the first call of the process is one with a null-model round
+    return steps
+
+
+class Job:
+    pass
+
+
+def start_pristine(steps):
+    import tempfile
+    job = Job()
+    job.steps = hgxv.jsonable(steps)
+    job.dir = tempfile.mkdtemp(prefix="c11p_")
+    sp, job.out = os.path.join(job.dir, "steps.json"), os.path.join(job.dir, "out.jsonl")
+    with open(sp, "w") as f:
+        json.dump(job.steps, f)
+    job.err = open(os.path.join(job.dir, "err.txt"), "w+")
+    job.t0 = time.time()
+    job.p = subprocess.Popen([sys.executable, "-c", PRISTINE_SRC, hgxv.REPO, sp, job.out, str(PRISTINE_CALL_S)],
+                             stdin=subprocess.DEVNULL, stdout=subprocess.DEVNULL, stderr=job.err, cwd=job.dir)
+    return job
+
+
+def finish_pristine(job, wait_s):
+    """-> list of records, or None while the child is still running and younger than wait_s"""
+    rc = job.p.poll()
+    if rc is None:
+        if time.time() - job.t0 < wait_s:
+            return None
+        job.p.kill()
+        job.p.wait()
+    recs = []
+    try:
+        with open(job.out) as f:
+            for ln in f:
+                try:
+                    recs.append(json.loads(ln))
+                except ValueError:
+                    break
+    except OSError:
+        pass
+    try:
+        job.err.seek(0)
+        job.errtxt = job.err.read()[-400:]
+        job.err.close()
+    except (OSError, ValueError):
+        job.errtxt = ""
+    import shutil
+    shutil.rmtree(job.dir, ignore_errors=True)
+    return recs
+
+
+def judge_pristine(ctx, drv, steps, recs):
+    """judge the censuses one un-instrumented process reported.  Findings carry the steps of that process up to the
+    failing one.  -> index of the first step with a finding, or None"""
+    if not recs or "file" not in recs[0]:
+        ctx.count("pristine_process_died")      # not even the import: judged by run() (tool failure when none starts)
+        return None
+    if not str(recs[0]["file"]).startswith(hgxv.REPO + "/"):
+        raise ToolFailure(f"the un-instrumented process imported {recs[0]['file']}, not the tree under {hgxv.REPO}")
+    ctx.count("pristine_processes")
+    by_i = {r["i"]: r for r in recs if "i" in r}
+    if len(by_i) < len(steps) and not any("exc" in r for r in by_i.values()):
+        ctx.count("pristine_process_unfinished")
+    for i, st in enumerate(steps):
+        rec = by_i.get(i)
+        if rec is None:
+            break
+        st = norm_step(st)
+        n, edges = st["n"], st["edges"]
+        directed = st["kind"] == "directed"
+        word = "compute_directed_motifs" if directed else "compute_motifs"
+        case = {"kind": "pristine", "at": i, "census": st["kind"], "n": n, "edges": edges, "steps": steps[:i + 1]}
+        nv, nd = len(ctx.violations), len(ctx.disagreements)
+        if "edit_failed" in rec:
+            ctx.count("pristine_object_not_editable")
+        if "exc" in rec:
+            if st.get("runs"):
+                ctx.count("pristine_null_model_round_failed")     # the null model is not judged here
+                continue
+            ctx.violation(case, f"un-instrumented process, call {i + 1}: {word}(h, {n}, 0) failed: {rec['exc']}")
+            return i
+        ctx.count("pristine_censuses")
+        ctx.count(f"pristine_{st['kind']}_order{n}")
+        if rec.get("edited"):
+            ctx.count("pristine_censuses_of_object_edited_in_place")
+        if st.get("runs"):
+            ctx.count("pristine_null_model_rounds")
+        first_of_kind = not any(s["kind"] == st["kind"] and s["n"] == n for s in steps[:i])
+        if first_of_kind:
+            size = (lambda e: len(e[0]) + len(e[1])) if directed else len
+            ctx.count("pristine_first_census_with_full_size_hyperedge", int(any(size(e) == n for e in edges)))
+        where = (f"un-instrumented process, call {i + 1} of {len(steps)} "
+                 f"({'first' if first_of_kind else 'not the first'} {st['kind']} order-{n} census of the process): ")
+        if not directed:
+            s2, obs = read_census(n, rec["observed"])
+            if s2 != "ok":
+                ctx.violation(case, where + f"compute_motifs(h, {n}, {st.get('runs', 0)})['observed'] is unreadable: {obs}")
+                return i
+            E = [ukey(e) for e in edges]
+            want = {3: 6, 4: 171}[n]
+            if len(obs) != want:
+                ctx.violation(case, where + f"compute_motifs reports {len(obs)} classes, expected {want}")
+            brute = brute_census(E, n)
+            got = {}
+            for m, c in nz(obs).items():
+                k = canon_pat(n, pat_of(n, m))
+                got[k] = got.get(k, 0) + c
+            if got != brute:
+                diff = [(k, got.get(k, 0), brute.get(k, 0)) for k in set(got) | set(brute) if got.get(k, 0) != brute.get(k, 0)][:3]
+                ctx.violation(case, where + f"order-{n} census differs from exhaustive enumeration: "
+                                            f"(class, reported, enumerated) = {diff}")
+            ctx.case(("pu", n, tuple(sorted(E))), len(nz(obs)) >= 3, sample=None)
+            if drv is not None:
+                univ = sorted({x for e in E for x in e} | set(st.get("labels") or []))
+                rank = {x: j for j, x in enumerate(univ)}
+                mod = tally_to_dict(ask(drv, [f"census {n} {hgxv.enc_lists([[rank[x] for x in e] for e in E])}"])[0])
+                if mod != obs:
+                    diff = [(pat_of(n, k), mod.get(k), obs.get(k)) for k in set(mod) | set(obs) if mod.get(k) != obs.get(k)][:3]
+                    ctx.disagree(case, where + f"census: (pattern, model, implementation) = {diff}")
+        else:
+            s2, obs = read_dcensus(n, rec["observed"])
+            if s2 != "ok":
+                ctx.violation(case, where + f"compute_directed_motifs(h, {n}, {st.get('runs', 0)})['observed'] is unreadable: {obs}")
+                return i
+            E = [dkey(e) for e in edges]
+            for k in obs:
+                if dcanon_key(n, k) != k:
+                    ctx.violation(case, where + f"reported directed pattern {k} is not the minimum of its relabellings")
+                    break
+            brute = dbrute(E, n)
+            if brute != obs:
+                diff = [(k, obs.get(k, 0), brute.get(k, 0)) for k in set(obs) | set(brute) if obs.get(k, 0) != brute.get(k, 0)][:2]
+                ctx.violation(case, where + f"directed order-{n} census differs from the enumeration of node subsets: "
+                                            f"(pattern, reported, enumerated) = {diff}")
+            ctx.case(("pd", n, tuple(sorted(E))), len(obs) >= 3, sample=None)
+            if drv is not None:
+                univ = sorted({x for e in E for x in e[0] + e[1]} | set(st.get("labels") or []))
+                rank = {x: j for j, x in enumerate(univ)}
+                a = hgxv.enc_lists([[rank[x] for x in e[0]] for e in E])
+                b = hgxv.enc_lists([[rank[x] for x in e[1]] for e in E])
+                ans = ask(drv, [f"dcensus {n} {a} {b}"])
+                try:
+                    mod = parse_dcensus(ans[0])
+                except Exception:  # noqa: BLE001
+                    mod = None
+                if mod != obs:
+                    ctx.disagree(case, where + f"directed census: model {ans[0][:300]!r}, implementation {sorted(obs.items())[:4]}")
+        if len(ctx.violations) > nv or len(ctx.disagreements) > nd:
+            return i            # what comes later in this process is no longer judged: one finding per process
+    return None
+
+
+def shorten_pristine(ctx, steps, at, want_violation):
+    """a shorter script that still shows the finding of step `at` in a new process: the step alone, then together with
+    one earlier census of the same kind and order; else the whole prefix"""
+    cands = [[at]] + [[j, at] for j in range(at) if steps[j]["kind"] == steps[at]["kind"] and steps[j]["n"] == steps[at]["n"]][:3]
+    for idx in cands:
+        left = ctx.time_left()
+        if left is not None and left < 12:
+            break
+        sub = [steps[j] for j in idx]
+        job = start_pristine(sub)
+        recs = None
+        while recs is None:
+            time.sleep(0.05)
+            recs = finish_pristine(job, 40)
+        m = Mute(ctx)
+        try:
+            hit = judge_pristine(m, None, sub, recs)
+        except ToolFailure:
+            hit = None
+        if hit == len(sub) - 1 and (m.violations if want_violation else m.violations or m.disagreements):
+            return sub
+    return None
+
+
+class Pristine:
+    """runs the un-instrumented processes next to the main stream (`width` at a time)"""
+
+    def __init__(self, plans, width):
+        self.todo = list(plans)
+        self.running = []
+        self.width = width
+        self.started = 0
+        self.last_err = ""
+
+    def pump(self, ctx, drv, wait_s=PRISTINE_HARD_S):
+        for job in list(self.running):
+            recs = finish_pristine(job, wait_s)
+            if recs is None:
+                continue
+            self.running.remove(job)
+            self.last_err = getattr(job, "errtxt", "") or self.last_err
+            nv, nd = len(ctx.violations), len(ctx.disagreements)
+            at = judge_pristine(ctx, drv, job.steps, recs)
+            found = ctx.violations[nv:] + ctx.disagreements[nd:]
+            if at is not None and at > 0 and found and CONFIRM and CONFIRMS_LEFT[0] > 0:
+                CONFIRMS_LEFT[0] -= 1
+                sub = shorten_pristine(ctx, job.steps, at, len(ctx.violations) > nv)
+                if sub is not None:
+                    for c, _ in found:
+                        c["steps"], c["at"], c["shortened_from_calls"] = sub, len(sub) - 1, at + 1
+                    note = f" [reproduced in a further new process that makes only {len(sub)} of these calls: the replay]"
+                    for lst in (ctx.violations, ctx.disagreements):
+                        for k, (c, what) in enumerate(lst):
+                            if any(c is f for f, _ in found):
+                                lst[k] = (c, what + note)
+        while self.todo and len(self.running) < self.width and not out_of_time(ctx, margin=10):
+            self.running.append(start_pristine(self.todo.pop(0)))
+            self.started += 1
+
+    def drain(self, ctx, drv):
+        while self.running or (self.todo and not out_of_time(ctx, margin=10)):
+            left = ctx.time_left()
+            self.pump(ctx, drv, PRISTINE_HARD_S if left is None else max(5, min(PRISTINE_HARD_S, left - 3)))
+            if self.running:
+                time.sleep(0.05)
+        if self.todo:
+            ctx.count("pristine_processes_not_started", len(self.todo))
+
+    def kill(self):
+        for job in self.running:
+            try:
+                job.p.kill()
+                job.p.wait()
+            except Exception:  # noqa: BLE001
+                pass
+            finish_pristine(job, 0)
+        self.running = []
+
+
+# ------------------------------------------------------------------------------------------
 # steps, histories, replay
 
 KINDS = {"tables": check_tables, "undirected": check_hg, "directed": check_dhg}
@@ -1071,10 +1537,25 @@ def out_of_time(ctx, margin=4):
 
 
 def run(ctx):
+    import random
     drv = ctx.driver() if ctx.model_available else None
-    boot = Session()
-    for n in (3, 4):
-        run_step(ctx, drv, boot, {"kind": "tables", "n": n})
+    prng = random.Random(f"C11 un-instrumented processes, seed {ctx.seed}")
+    pool = Pristine([gen_pristine(prng, p) for p in range(ctx.scale(5, 72))], ctx.scale(5, 3))
+    try:
+        pool.pump(ctx, drv)          # the first processes run next to the main stream
+        boot = Session()
+        for n in (3, 4):
+            run_step(ctx, drv, boot, {"kind": "tables", "n": n})
+        run_main(ctx, drv, pool)
+        pool.drain(ctx, drv)
+        if pool.started and not ctx.extra.get("pristine_processes"):
+            raise ToolFailure(f"none of the {pool.started} un-instrumented processes got as far as importing "
+                              f"hypergraphx: {pool.last_err!r}")
+    finally:
+        pool.kill()
+
+
+def run_main(ctx, drv, pool):
     rng = ctx.rng
     n_u = ctx.scale(16, 430)     # undirected sessions (3-4 hypergraphs each, both orders)
     n_d = ctx.scale(11, 340)     # directed sessions
@@ -1102,6 +1583,7 @@ def run(ctx):
                     break
             if out_of_time(ctx):
                 break
+        pool.pump(ctx, drv)
         if out_of_time(ctx):
             break
     ctx.count("undirected_sessions", i + 1 if n_u else 0)
@@ -1121,6 +1603,7 @@ def run(ctx):
                     break
             if out_of_time(ctx):
                 break
+        pool.pump(ctx, drv)
         if out_of_time(ctx):
             break
     ctx.count("directed_sessions", i + 1 if n_d else 0)
@@ -1132,6 +1615,15 @@ def replay(ctx, case):
     global CONFIRM
     CONFIRM = False
     drv = ctx.driver() if ctx.model_available else None
+    if case.get("kind") == "pristine":
+        job = start_pristine(case["steps"])
+        recs = None
+        while recs is None:
+            time.sleep(0.05)
+            left = ctx.time_left()
+            recs = finish_pristine(job, PRISTINE_HARD_S if left is None else max(5, min(PRISTINE_HARD_S, left - 3)))
+        judge_pristine(ctx, drv, job.steps, recs)
+        return
     sess = Session()
     for st in case.get("history") or []:
         run_step(Mute(ctx), None, sess, norm_step(st))
